@@ -903,7 +903,7 @@ def make_resolver(prog, runs, decline=None, log=None):
                     break
             if out is not None and not out:
                 out = None
-            return record('slice', (key, frozenset(value)), out)
+            return record('slice', (key, frozenset(value), frozenset(slice_) if isinstance(slice_, (set, frozenset)) else None), out)
 
         def res_compare(self, ns, types_ns, node, left, right):
             if dec('compare') or len(right) != 1 or type(node.ops[0]) not in _AST_CMP:
